@@ -28,7 +28,10 @@
  *        A token that occurred earlier in the same case re-delivers the very same datagram (a
  *        replay on the wire).
  *        A token with a leading '2' comes from a second client (sender id 03); the server has
- *        two recipient contexts (ids 02 and 03).
+ *        two recipient contexts (ids 02 and 03).  +<hexid> / -<hexid>: the application calls
+ *        coap_new_oscore_recipient / coap_delete_oscore_recipient for that one byte id between
+ *        the deliveries (result: <return value>,<fields of 02>/<fields of 03>, "-,-,-" = no
+ *        such recipient).
  *        -> per message  <A|R|D|C|E|N|?code>,<last_seq>,<window>,<initial>/<the same three
  *           fields of the second recipient context>[~o<hexpiv>#<hash> | ~r#<hash>]
  *           the suffix: the server sent a protected datagram; it used a Partial IV of its own
@@ -132,6 +135,20 @@ static coap_context_t *sctx;
 static coap_endpoint_t *sep;
 static coap_session_t *ssess;
 static oscore_recipient_ctx_t *rcp, *rcp2;   /* recipient ids 02 and 03 */
+
+/* the recipient context a request with this (one byte) kid is checked against: the first entry
+ * of the chain with that id, as oscore_find_context does it */
+static oscore_recipient_ctx_t *find_rcp(uint8_t id) {
+  if (!sctx || !sctx->p_osc_ctx) return NULL;
+  for (oscore_recipient_ctx_t *r = sctx->p_osc_ctx->recipient_chain; r; r = r->next_recipient)
+    if (r->recipient_id->length == 1 && r->recipient_id->s[0] == id) return r;
+  return NULL;
+}
+
+static void print_rcp3(oscore_recipient_ctx_t *r) {
+  if (r) printf("%" PRIx64 ",%" PRIx64 ",%d", r->last_seq, r->sliding_window, r->initial_state);
+  else printf("-,-,-");
+}
 static int handler_calls;
 
 static void hnd_get(coap_resource_t *r, coap_session_t *s, const coap_pdu_t *req,
@@ -438,8 +455,33 @@ static void cmd_rpd(void) {
     /* a leading '2' = the message comes from the second client (sender id 03) */
     int who = vtok[i][0] == '2';
     const char *mt = vtok[i] + who;
-    oscore_recipient_ctx_t *rc = who ? rcp2 : rcp;
+    oscore_recipient_ctx_t *rc;
     char kind = mt[0];
+    static const uint8_t zero8[8];
+    /* recipient management between the deliveries: +<id> coap_new_oscore_recipient,
+     * -<id> coap_delete_oscore_recipient (one byte ids) */
+    if (vtok[i][0] == '+' || vtok[i][0] == '-') {
+      uint8_t idb = (uint8_t)strtoul(vtok[i] + 1, NULL, 16);
+      int ret;
+      if (vtok[i][0] == '+') {
+        coap_bin_const_t *rid = coap_new_bin_const(&idb, 1);     /* owned by the library */
+        ret = coap_new_oscore_recipient(sctx, rid);
+      } else {
+        coap_bin_const_t rid = { 1, &idb };
+        ssess->recipient_ctx = NULL;          /* (the session may still point at the entry) */
+        ret = coap_delete_oscore_recipient(sctx, &rid);
+        /* datagrams made for the deleted context (their Echo is its echo_value) are not
+         * re-used: the same token is generated anew for the next context */
+        for (int j = 0; j < MAXMSG; j++) msg_len[j] = 0;
+      }
+      if (i > 5) putchar(' ');
+      printf("%d,", ret);
+      print_rcp3(find_rcp(0x02));
+      putchar('/');
+      print_rcp3(find_rcp(0x03));
+      continue;
+    }
+    rc = find_rcp(who ? 0x03 : 0x02);
     uint64_t seq = strtoull(mt + 1, NULL, 16);
     uint8_t dg[512], echo[8];
     size_t n = 0, el = 0;
@@ -451,13 +493,16 @@ static void cmd_rpd(void) {
     for (int j = 5; j < i && j - 5 < MAXMSG; j++)
       if (!strcmp(vtok[j], vtok[i]) && msg_len[j - 5]) { prev = j - 5; break; }
     if (i - 5 < MAXMSG) msg_len[i - 5] = 0;
+    /* e / x mean "Echo equal to / different from the context's current echo_value": while that
+     * still matters (no context, or context in its initial state) the datagram is made anew */
+    if ((kind == 'e' || kind == 'x') && (!rc || rc->initial_state)) prev = -1;
     if (prev >= 0) {
       n = msg_len[prev];
       memcpy(dg, msg_buf[prev], n);
       goto deliver;
     }
-    if (kind == 'e') { memcpy(echo, rc->echo_value, 8); ep = echo; el = 8; }
-    if (kind == 'x') { memcpy(echo, rc->echo_value, 8); echo[0] ^= 0x5a; ep = echo; el = 8; }
+    if (kind == 'e') { memcpy(echo, rc ? rc->echo_value : zero8, 8); ep = echo; el = 8; }
+    if (kind == 'x') { memcpy(echo, rc ? rc->echo_value : zero8, 8); echo[0] ^= 0x5a; ep = echo; el = 8; }
     if (kind == 'P') gen_seq = (seq >= OSCORE_SEQ_MAX - 2) ? seq - 2 : (seq ^ 1);
     client_sender(c)->seq = gen_seq;
     n = client_protect(c, con, (unsigned)(i * 7 + 1), ep, el, dg, sizeof(dg));
@@ -531,9 +576,11 @@ deliver:
       char tags[128];
       nonce_tags_of_captures(sctx, 0, tags, sizeof(tags));
       if (kind == 'A') tags[0] = 0;       /* whether a reply gets out depends on k */
-      printf("%s,%" PRIx64 ",%" PRIx64 ",%d/%" PRIx64 ",%" PRIx64 ",%d%s", verdict, rcp->last_seq,
-             rcp->sliding_window, rcp->initial_state, rcp2->last_seq, rcp2->sliding_window,
-             rcp2->initial_state, tags);
+      printf("%s,", verdict);
+      print_rcp3(find_rcp(0x02));
+      putchar('/');
+      print_rcp3(find_rcp(0x03));
+      printf("%s", tags);
     }
   }
   if (vntok == 5) printf("-");
